@@ -351,9 +351,9 @@ def execItems (S : Schema) (T : String → Bytes → Bytes) (r : Rec) : List Des
 
 /-! ### a whole class -/
 
-/-- `instance._<x> = <x>` for the own value-carrying members of the class -/
+/-- `instance._<x> = <x>` for the members the class stores (`non_reserved_fields(include_inherited=False)`) -/
 def setsOf (d : StructDef) (σ : PyState) : R (List (String × Val)) :=
-  ((ownFields d).filter (·.kind.carries)).mapM fun f =>
+  (nonReservedOwn d).mapM fun f =>
     match σ.get (printerName f.name) with
     | some v => .ok (f.name, v)
     | none => .error .missing
@@ -394,7 +394,8 @@ def emittedDeserialize (S : Schema) (T : String → Bytes → Bytes) (r : Rec) (
   a size-limited member -- are not `type` / `property` / `size` (the local is called `type_` / `property_` /
   `size_`); the size member of a byte array is not `type` / `property` (the discriminant of a condition is
   written with its generated name since the repair of `generate_condition`);
-* only the struct's size member is called `size`, and no member `size_`;
+* only the struct's size member is called `size`, and no member `size_`; the class stores exactly the value-carrying
+  own members (`storedOk`: in particular an own size member is called `size`);
 * count / byte-size / size-of members are unsigned (a negative value would make `buffer[:n]` count from the end);
 * a condition on an enum-typed discriminant names a member of the enum, and enum member names are unique;
 * the own members of a class with a base class refer (condition, count, size, limit) to own members only. -/
@@ -444,8 +445,14 @@ def refsOf (f : Field) : List String :=
 def ownRefsOk (d : StructDef) : Bool :=
   (ownFields d).all fun f => (refsOf f).all fun n => !(inheritedNames d).contains n
 
+/-- the members the generated class stores are the value-carrying own members. (The generator tells them by name: it
+    drops the first stored member when it is called `size`, and tells inherited members by their names. A size member
+    under another name is stored as a dead attribute `_<name>` -- written by `deserialize`, printed by `__str__` /
+    `to_json`, never read by `serialize` -- which the object model does not have.) -/
+def storedOk (d : StructDef) : Bool := nonReservedOwn d == (ownFields d).filter (·.kind.carries)
+
 def wfgdStruct (S : Schema) (d : StructDef) : Bool :=
-  ownRefsOk d &&
+  ownRefsOk d && storedOk d &&
   d.fields.all (fun f => mangledFree f.name && f.name != "size_" && wfgdKind f && wfgdCond S d f)
 
 def WFGD (S : Schema) : Bool :=
